@@ -538,6 +538,8 @@ func (w *c06EvmWorld) apply(r *Rec, op string) string {
 	switch f[0] {
 	case "emit":
 		return w.applyEmit(r, f)
+	case "emitmix":
+		return w.applyEmitMix(r, f)
 	case "spoof":
 		return w.applySpoof(r, f)
 	case "evmrestart":
